@@ -7,9 +7,10 @@
 #include "vstd_c.h"
 #include "ghost.h"
 int gh_lc_phase, g_pending, g_bad, g_lost, g_emitted, g_raw_emitted, gh_corpus_null, gh_corpus_empty;
-unsigned long gh_ntus, gh_tus_written;
+unsigned long gh_ntus, gh_tus_written, gh_corpora_written;
 int w_write_corpus(unsigned indent, int member_of_group);
 int w_write_elf_symbol(unsigned indent, int null_sym);
+int w_write_corpus_group(unsigned indent, int null_group);
 int w_write_elf_symbol_reference(void);
 int w_write_elf_needed(unsigned long n, unsigned indent);
 #define POST(c) __CPROVER_assert(c, "postcondition: " #c)
@@ -29,6 +30,20 @@ void h_write_corpus(void)
   POST((r && !gh_corpus_null && !gh_corpus_empty) ==> (g_emitted && gh_tus_written == gh_ntus));   /* every TU is written */
   POST(!g_raw_emitted);                              /* C04 */
   CANARY_h_write_corpus;
+}
+void h_write_corpus_group(void)
+{
+  fresh_stream();
+  gh_corpus_empty = nondet_int(); gh_ntus = nondet_ulong(); gh_corpora_written = 0;
+  __CPROVER_assume(gh_ntus <= (1UL << 20));
+  unsigned in_indent = nondet_unsigned(); int in_null = nondet_int() != 0;
+  __CPROVER_assume(in_indent <= 64);
+  int r = w_write_corpus_group(in_indent, in_null);
+  POST(r ==> (!g_lost && !g_pending));              /* C36 */
+  POST(in_null ==> !r);
+  POST((r && !in_null && !gh_corpus_empty) ==> gh_corpora_written == gh_ntus);   /* every corpus of the group is written */
+  POST(!g_raw_emitted);                              /* C04 */
+  CANARY_h_write_corpus_group;
 }
 void h_write_elf_symbol(void)
 {
